@@ -611,7 +611,8 @@ impl<'a> Body for ReplaceBody<'a> {
     fn run<T: Text + ?Sized>(&self, t: &T, _pos: usize) -> Obs {
         let mut o = Obs::default();
         let re = &self.b.regex;
-        let ops = ["replacen_noexpand", "replacen_str", "replacen_closure", "replacen_dollar0", "replacen_dollardollar", "replacen_group1", "replacen_braced"];
+        let ops = ["replacen_noexpand", "replacen_str", "replacen_closure", "replacen_dollar0", "replacen_dollardollar", "replacen_group1", "replacen_braced",
+                   "replacen_unicode_name", "replacen_string", "replacen_trailing_dollar"];
         let res = with_text(self.b, t, |s| {
             let (fi, _) = real_find_iter(re, s);
             let (ci, groups, _) = real_captures_iter(re, s);
@@ -625,7 +626,12 @@ impl<'a> Body for ReplaceBody<'a> {
                         3 => re.try_replacen(s, n, "<$0>"),
                         4 => re.try_replacen(s, n, "$$"),
                         5 => re.try_replacen(s, n, "[$1]"),
-                        _ => re.try_replacen(s, n, "${1}a$$"),
+                        6 => re.try_replacen(s, n, "${1}a$$"),
+                        // `$` + a non-ASCII identifier: a reference to a group that does not exist
+                        7 => re.try_replacen(s, n, "<$\u{e9}x>"),
+                        8 => re.try_replacen(s, n, String::from("x")),
+                        // a trailing `$` is copied verbatim
+                        _ => re.try_replacen(s, n, "a$"),
                     };
                     let r2 = match r {
                         Ok(c) => Ok((matches!(c, std::borrow::Cow::Borrowed(_)), c.to_string())),
@@ -634,7 +640,7 @@ impl<'a> Body for ReplaceBody<'a> {
                     // model from the matches the same path yields: fast path (k == 0, 1) follows
                     // find_iter, the slow path captures_iter
                     // (a template with `$` and a closure take the captures path)
-                    let src = if k <= 1 { &fi } else { &ci };
+                    let src = if k <= 1 || k == 8 { &fi } else { &ci };
                     let mut m = String::new();
                     let mut last = 0usize;
                     let mut err = None;
@@ -674,6 +680,8 @@ impl<'a> Body for ReplaceBody<'a> {
                                         m.push_str(group1(idx));
                                         m.push_str("a$");
                                     }
+                                    7 => m.push_str("<>"),
+                                    9 => m.push_str("a$"),
                                     _ => m.push('x'),
                                 }
                                 last = *z;
